@@ -123,6 +123,9 @@ func vSameBattery(a, b vBattery, label string) {
 	vAssert(vSameIDs(a.hyb, b.hyb), label+"-hybrid-unchanged")
 }
 
+type vTier string
+type vTicks int64
+
 // a hybrid Add that fails in the 1st, 2nd or 3rd sub-index leaves every modality unchanged
 func H_C06_failed_add() {
 	metric := []DistanceKind{L2Squared, Cosine}[vChoose("metric", 2)]
@@ -151,13 +154,17 @@ func H_C06_failed_add() {
 		vTag("fails=text")
 	case 3:
 		var bad interface{} = []int{1} // unsupported value types
-		switch vChoose("bad_type", 4) {
+		switch vChoose("bad_type", 6) {
 		case 1:
 			bad = float32(1.5)
 		case 2:
 			bad = int32(3)
 		case 3:
 			bad = uint8(1)
+		case 4:
+			bad = vTier("gold") // named types over a supported kind are not the supported types themselves
+		case 5:
+			bad = vTicks(5)
 		}
 		meta = map[string]interface{}{"bad": bad, "c": "new", "n": 7} // "bad" sorts before the supported keys; "zbad" after
 		if vChoose("bad_key_last", 2) == 1 {
